@@ -131,9 +131,9 @@ func c19Frame(c *core.Ctx, pkg *packages.Package) {
 		// error discipline: each of the three fallible calls is followed by `if err != nil { return err }`
 		nChecks := 0
 		ast.Inspect(fn.Decl.Body, func(n ast.Node) bool {
-			if ifs, ok := n.(*ast.IfStmt); ok && len(ifs.Body.List) == 1 {
+			if ifs, ok := n.(*ast.IfStmt); ok && len(an.Effective(ifs.Body.List)) == 1 {
 				if be, ok := ifs.Cond.(*ast.BinaryExpr); ok && be.Op == token.NEQ && an.IsNil(info, be.Y) && an.IsErrorType(info, be.X) {
-					if r, ok := ifs.Body.List[0].(*ast.ReturnStmt); ok && len(r.Results) == 1 && types.ExprString(r.Results[0]) == types.ExprString(be.X) {
+					if r, ok := an.Effective(ifs.Body.List)[0].(*ast.ReturnStmt); ok && len(r.Results) == 1 && types.ExprString(r.Results[0]) == types.ExprString(be.X) {
 						nChecks++
 					}
 				}
@@ -577,8 +577,8 @@ func c19Fields(c *core.Ctx, pkg *packages.Package) {
 		ast.Inspect(fn.Decl.Body, func(n ast.Node) bool {
 			switch x := n.(type) {
 			case *ast.RangeStmt:
-				if len(x.Body.List) == 1 {
-					if as, ok := x.Body.List[0].(*ast.AssignStmt); ok {
+				if len(an.Effective(x.Body.List)) == 1 {
+					if as, ok := an.Effective(x.Body.List)[0].(*ast.AssignStmt); ok {
 						if ix, ok := as.Lhs[0].(*ast.IndexExpr); ok && types.ExprString(ix.X) == resMap && types.ExprString(ix.Index) == types.ExprString(x.Key) && types.ExprString(as.Rhs[0]) == types.ExprString(x.Value) {
 							loops[types.ExprString(x.X)] = true
 						}
